@@ -74,6 +74,10 @@ fn check(t: &mut Tape, ctx: &mut Ctx) -> CheckResult {
         let o = super::c14::optic_table(t, al, &keys, false, ctx);
         let img = wf(ctx, "map-arrow-wf", sv::op_optic(&o, f), "Optic(f) as a functor")?;
         require_iso(ctx, "optic-functor-is-definition", &img, &crate::functor_model::optic_image(f, &o).0, "Optic::map_arrow(f) (Functor impl) vs the optic definition")?;
+        // ... and so is the lax optic (a user's implementation of the lax `Optic` trait)
+        let limg = open_hypergraphs::lax::optic::Optic::map_arrow(&crate::lax_ops::LOptic(o.clone()), to_lax_d(f));
+        let limg = wf(ctx, "map-arrow-wf", from_lax(&limg), "lax Optic(f) as a functor")?.strictify().map_err(|e| ctx.fail("map-arrow-wf", format!("lax Optic(f) has label conflicts: {e}")))?;
+        require_iso(ctx, "optic-functor-is-definition", &limg, &crate::functor_model::optic_image(f, &o).0, "lax Optic::map_arrow(f) vs the optic definition")?;
     }
     // the lax functor wrapped as a strict functor (`to_dyn_functor`) and applied to the strict diagram
     {
